@@ -26,6 +26,7 @@ What the code's true invariant is (differences to the plain reading of the prope
 import BHS.Gen.PeerConsts
 import BHS.Proofs.Peers
 import BHS.Proofs.PeersConnMgr
+import BHS.Proofs.PeersWire
 
 namespace BHS.Props.C18
 open BHS
@@ -361,5 +362,46 @@ example : let s := run (cc true) (start (cc true)) [.dialOk 1 0, .dialFail 2 0, 
 example : (serverConn 0 true).target = Gen.defaultTargetOutbound ∧ (serverConn 3 true).target = 3 := by decide
 
 end connmgr
+
+/-! ## Part 3 — admission and connection manager wired together as in server.go -/
+section wired
+open BHS.Model BHS.Model.PeerWire BHS.Proofs.PeerWire
+
+/-- **Target kept by the wired system.** For EVERY sequence of dial results, outbound peers
+admitted or refused (banned host, per-host limit, total limit — a refused outbound peer ends in
+`connManager.Disconnect(connReq.ID())` exactly once), peers leaving, inbound arrivals, bans and
+clock steps: `established + in flight = target`, so while fewer than `target` outbound
+connections are established the connection manager is asking for an address / dialling. -/
+theorem C18_wired_target (cfg : PeerWire.Cfg) (evs : List PeerWire.Event) :
+    (run cfg (start cfg) evs).c.conns.length + (run cfg (start cfg) evs).c.live.length = cfg.cc.target ∧
+    ((run cfg (start cfg) evs).c.conns.length < cfg.cc.target → (run cfg (start cfg) evs).c.live ≠ []) := by
+  have h := (cinv_run evs (start cfg) (cinv_start cfg)).tot
+  simp only [BHS.Proofs.ConnMgr.tot, BHS.Proofs.ConnMgr.lost_eq_zero] at h
+  refine ⟨by omega, ?_⟩
+  intro hlt hnil
+  rw [hnil] at h
+  simp only [List.length_nil] at h
+  omega
+
+/-- every admitted outbound peer holds a connection request that is not being dialled any more
+(its later `Disconnect` is one of the events `C18_target` admits) -/
+theorem C18_wired_peers_hold_requests (cfg : PeerWire.Cfg) (evs : List PeerWire.Event) :
+    ∀ x ∈ (run cfg (start cfg) evs).out, x.1 ∉ (run cfg (start cfg) evs).c.live :=
+  fun x hx => ((cinv_run evs (start cfg) (cinv_start cfg)).kept x hx).2
+
+-- non-vacuity: target 2; host 0 is banned; the manager connects to host 0 again, the peer is refused as banned,
+-- the connection is given back and a new request is in flight; then host 1 is admitted
+private def wcfg : PeerWire.Cfg := { pc := { maxPeers := 3, maxPerIP := 1, banMs := 10 }, cc := { target := 2, banAddr := true, maxFailed := 3 } }
+example : (step wcfg (run wcfg (start wcfg) [.ban 0]) (.ok 0 0 0)).2 = some .banned := by decide
+example : let w := run wcfg (start wcfg) [.ban 0, .ok 0 0 0]
+    w.c.conns = [] ∧ w.c.live = [2, 3] ∧ w.c.closed = [1] ∧ w.out = [] := by decide
+example : let w := run wcfg (start wcfg) [.ban 0, .ok 0 0 0, .ok 0 1 1]
+    w.c.conns = [(2, 1)] ∧ w.c.live = [3] ∧ w.out.map (·.1) = [2] ∧ Peers.count w.p = 1 := by decide
+-- refused for the per-host limit (an inbound peer of host 1 holds the only slot), replaced; the admitted one leaves, replaced
+example : (step wcfg (run wcfg (start wcfg) [.inbound 1 1]) (.ok 0 1 1)).2 = some .perHost := by decide
+example : let w := run wcfg (start wcfg) [.ok 0 1 1, .done 0]
+    w.c.conns = [] ∧ w.c.live.length = 2 ∧ w.out = [] ∧ Peers.count w.p = 0 := by decide
+
+end wired
 
 end BHS.Props.C18
